@@ -3,6 +3,6 @@
 patch=$1; shift
 git -C /repo apply "$patch" || exit 2
 for p in "$@"; do
-  echo "== $p"; python3 /verif/tools/check.py $p ${TIER:-quick} 2>&1 | grep -E "VIOLATION|KNOWN|^#|rror" | cut -c1-400; 
+  echo "== $p"; python3 /verif/tools/check.py $p ${TIER:-quick} 2>&1 | grep -a -E "VIOLATION|KNOWN|^#|rror" | cut -c1-400; 
 done
 git -C /repo checkout -- . ; git -C /repo status --short
